@@ -134,10 +134,12 @@ def run(ck):
         bad_exits = []
         for head, body in cfg.loops(fn).items():
             for b_ in body:
-                if b_ not in reg:
-                    continue
                 for sx in fn.succs(b_):
                     if sx in body or fn.blocks[sx]["cleanup"]:
+                        continue
+                    # an exit taken inside a dry_run-dependent region, or an exit *into* one (the branch on dry_run itself leaves the
+                    # loop: the blocks of a `{ ...; break }` arm are not part of the loop body)
+                    if b_ not in reg and sx not in reg:
                         continue
                     # leaving through `?` (an error is on its way out) is not a decision about how far to go
                     t_ = fn.blocks[b_]["term"]
